@@ -34,9 +34,20 @@ func distinctIDs(sel []item, n int) bool {
 // maximum total value over all 2^n selections (evaluated branch-free).
 func Knapsack() {
 	n := vx.Param("n", 3)
-	its := symItems(n, vx.Param("maxw", 6), vx.Param("maxv", 9))
-	W := vx.Int("W")
-	vx.Assume(vx.And(W >= 0, W <= vx.Param("maxW", 5)))
+	var its []item
+	var W int
+	if vx.Param("enum", 0) == 1 {
+		// larger item counts: weights from {1,2,3}, values from {1,10}, limit from {6,7}, enumerated by
+		// forking (no symbolic data: an exhaustive small-domain enumeration, labelled as such)
+		for i := 0; i < n; i++ {
+			its = append(its, item{i, vx.Choose(3) + 1, []int{1, 10}[vx.Choose(2)]})
+		}
+		W = 6 + vx.Choose(2)
+	} else {
+		its = symItems(n, vx.Param("maxw", 6), vx.Param("maxv", 9))
+		W = vx.Int("W")
+		vx.Assume(vx.And(W >= 0, W <= vx.Param("maxW", 5)))
+	}
 	var sel []item
 	if vx.Param("breaker", 0) == 1 {
 		sel = algz.Knapsack(W, its, func(i item) int { return i.w }, func(i item) int { return i.v },
